@@ -309,6 +309,28 @@ func init() {
 				}
 			}
 		}
+		c.Phase("huge-claims") // every count / length field replaced by a value the data cannot back: the parsers must refuse
+		for i := 0; i < nbase; i++ {
+			if !c.Case(uint64(i)) {
+				continue
+			}
+			r := c.Rand(uint64(i))
+			t := c01Ref(gen.RandShape(r, gen.ShapeOpts{MaxIns: 2, MaxOuts: 2, AllowNil: true, ScriptLens: []int{0, 1, 30}}))
+			for _, ext := range []bool{false, true} {
+				enc, fs := refcodec.EncodeTrace(t, ext, nil)
+				for _, f := range fs {
+					for _, v := range []uint64{f.Value + 1, f.Value + 0xfd, 1 << 16, 1 << 31, 1<<32 - 1, 1 << 32, 1<<63 - 1, 1 << 63, 1<<63 + f.Value, 1<<64 - 1, 1<<64 - 1 - f.Value} {
+						if v == f.Value {
+							continue
+						}
+						b := append([]byte{}, enc[:f.Off]...)
+						b = refcodec.AppendVarint(b, v, 0)
+						b = append(b, enc[f.Off+f.Width:]...)
+						jb(c, &c01Bytes{Bytes: b, Class: "huge-claim:" + f.Kind, Txs: 1})
+					}
+				}
+			}
+		}
 		c.Phase("nonminimal-random")
 		nn := 10000
 		if c.Thorough {
@@ -933,7 +955,7 @@ func c01JudgeShape(c *mon.Ctx, s *gen.Shape, tag string) bool {
 	all := true
 
 	// 1a. serialisers
-	tx := s.Build()
+	tx := s.BuildShared()
 	var lb, le []byte
 	if c.Try("Tx.Bytes", func() { lb = tx.Bytes() }) {
 		if !bytes.Equal(lb, encs[0]) {
@@ -950,6 +972,43 @@ func c01JudgeShape(c *mon.Ctx, s *gen.Shape, tag string) bool {
 		}
 	} else {
 		all = false
+	}
+
+	// 1a'. the length-prefix codec on its own, for this structure's counts and lengths
+	vals := []uint64{uint64(len(s.Ins)), uint64(len(s.Outs)), uint64(tx.Version), uint64(tx.LockTime)<<32 | 0xfd, ^uint64(tx.LockTime)}
+	for i := range s.Ins {
+		vals = append(vals, uint64(len(s.Ins[i].Unlock)), s.Ins[i].PrevSats)
+	}
+	for i := range s.Outs {
+		vals = append(vals, uint64(len(s.Outs[i].Script)), s.Outs[i].Sats)
+	}
+	for k, v := range vals {
+		want := refcodec.AppendVarint(nil, v, 0)
+		var vb []byte
+		var vl, used int
+		var back bt.VarInt
+		var rd bt.VarInt
+		var rn int64
+		var rerr error
+		cr := &c01CountReader{r: bytes.NewReader(append(append([]byte{}, want...), 0xff, 0xff)), chunk: 2}
+		if !c.Try("VarInt.Bytes", func() {
+			vb, vl = bt.VarInt(v).Bytes(), bt.VarInt(v).Length()
+			back, used = bt.NewVarIntFromBytes(append(append([]byte{}, want...), 0xff, 0xff))
+			rn, rerr = rd.ReadFrom(cr)
+		}) {
+			all = false
+			continue
+		}
+		if !bytes.Equal(vb, want) || vl != len(want) || uint64(back) != v || used != len(want) || rerr != nil || uint64(rd) != v || rn != int64(len(want)) || cr.n != int64(len(want)) {
+			c.Violationf("C01:varint-mismatch", "VarInt(%d): Bytes() = %x, Length() = %d, NewVarIntFromBytes = (%d, %d), ReadFrom = (%d, n=%d, taken=%d, %v); the encoding is %x", v, vb, vl, uint64(back), used, uint64(rd), rn, cr.n, rerr, want)
+			all = false
+		} else {
+			c.Count("varint:compared")
+		}
+		if k < 2 {
+			own := vb
+			c.Retain("VarInt.Bytes() result", func() []byte { return own })
+		}
 	}
 
 	// 3. transaction id
